@@ -8,8 +8,9 @@ import (
 	"github.com/LiskHQ/lisk-engine/pkg/blockchain"
 	"github.com/LiskHQ/lisk-engine/pkg/codec"
 	"github.com/LiskHQ/lisk-engine/pkg/consensus"
-	"github.com/LiskHQ/lisk-engine/pkg/trie/rmt"
+	csync "github.com/LiskHQ/lisk-engine/pkg/consensus/sync"
 	"github.com/LiskHQ/lisk-engine/pkg/p2p"
+	"github.com/LiskHQ/lisk-engine/pkg/trie/rmt"
 
 	"verif/sim/simkit"
 )
@@ -31,6 +32,32 @@ type Adversary struct {
 	lastSlot int
 	// PayloadAttacks: blocks whose payload exceeds the size limit and blocks carrying a statically invalid transaction
 	PayloadAttacks bool
+	// SyncTwins: blocks announced with one payload and served to synchronizing nodes with another (same header)
+	SyncTwins bool
+	Swap      map[string]*blockchain.Block // id of the shadow's block -> what its sync responder serves instead
+}
+
+// SwapServed rewrites a getBlocksFromId response of a shadow node: blocks with a registered twin are replaced.
+func (a *Adversary) SwapServed(respData []byte) []byte {
+	if len(a.Swap) == 0 {
+		return nil
+	}
+	resp := &csync.GetBlocksFromIDResponse{}
+	if err := resp.Decode(respData); err != nil {
+		return nil
+	}
+	hit := false
+	for i, b := range resp.Blocks {
+		b.Init() // decoded as a field of the response: the ids are not computed yet
+		if tw := a.Swap[string(b.Header.ID)]; tw != nil {
+			resp.Blocks[i] = cloneBlock(tw)
+			hit = true
+		}
+	}
+	if !hit {
+		return nil
+	}
+	return resp.Encode()
 }
 
 type heldBlock struct {
@@ -215,6 +242,45 @@ func (a *Adversary) act() {
 			a.sendToAll(b2, 0)
 			a.Stats["statically_invalid_transaction"]++
 			simkit.Fault("byz_statically_invalid_transaction")
+			return
+		}
+	}
+	if a.SyncTwins && len(b.Transactions) == 0 && simkit.Chance(t, "byzswap", 1, 5) {
+		// payload swap: the header commits to a payload of one (statically valid) transaction, while its state and event
+		// roots are those of the empty payload. Announced with the transaction the block passes the gossip checks and fails
+		// at execution; a node that has to fetch it (fast chain switch) is served the same header with the empty payload,
+		// which executes to the signed roots but is not what the transaction root commits to.
+		fake := &blockchain.Transaction{Module: "sim", Command: "prog", Nonce: 0, Fee: 1, SenderPublicKey: simkit.Bytes(t, "swapkey", 32, 32), Params: []byte{}, Signatures: []codec.Hex{bytes.Repeat([]byte{9}, 64)}}
+		fake.Init()
+		b2 := cloneBlock(b)
+		b2.Header.TransactionRoot = rmt.CalculateRoot([][]byte{fake.ID})
+		// only nodes that do not stand on the parent have to fetch the block; the others get the honest block
+		var lagging, atTip []*Node
+		for _, n := range honest {
+			if n.Up && !bytes.Equal(n.Tip().ID, b.Header.PreviousBlockID) {
+				lagging = append(lagging, n)
+			} else {
+				atTip = append(atTip, n)
+			}
+		}
+		if len(lagging) > 0 && fake.Validate() == nil && a.resign(b2) {
+			b2.Init()
+			announced := cloneBlock(b2)
+			announced.Transactions = []*blockchain.Transaction{fake}
+			if a.Swap == nil {
+				a.Swap = map[string]*blockchain.Block{}
+			}
+			a.Swap[string(b.Header.ID)] = b2
+			a.record(b)
+			a.record(b2)
+			for _, n := range lagging {
+				a.send(announced, n, 0)
+			}
+			for _, n := range atTip {
+				a.send(b, n, 0)
+			}
+			a.Stats["payload_swap"]++
+			simkit.Fault("byz_payload_swap_announced")
 			return
 		}
 	}
